@@ -259,6 +259,9 @@ func TestVFC07Layout(t *testing.T) {
 			s.readAll(vfC07Filter{}, false)
 		}
 		for size := 1; size <= n+1; size++ {
+			if n > 8 && size > 3 && size < n-1 && rapid.IntRange(0, 2).Draw(t, fmt.Sprintf("skip_size_%d", size)) != 0 {
+				continue
+			}
 			s.pageByCursor(vfC07Filter{}, size, full)
 			s.pageByOffset(vfC07Filter{}, size, full)
 		}
